@@ -272,6 +272,7 @@ func (e *electrumStub) SubscribeHeaders(ctx context.Context) (<-chan *goelectrum
 	}
 	ch := make(chan *goelectrum.SubscribeHeadersResult, 100000)
 	ch <- &goelectrum.SubscribeHeadersResult{Height: int32(e.c.Height())}
+	e.n.served(e.c.Name, e.c.Height())
 	e.c.subscribe(e.n, ch)
 	return ch, nil
 }
@@ -325,6 +326,7 @@ func (c *SimChain) notifyHeaders() {
 		}
 		select {
 		case s.ch <- &goelectrum.SubscribeHeadersResult{Height: int32(c.Height())}:
+			n.served(c.Name, c.Height())
 		default:
 		}
 		live = append(live, s)
